@@ -49,7 +49,7 @@ func TestC14(t *testing.T) {
 		now := nowUnix()
 		for ci := range plans {
 			keys := []string{fmt.Sprintf("c%d-a", ci), fmt.Sprintf("c%d-b", ci)}
-			opts := cmdGenOpts{Binary: binary, Keys: keys, TwoPorts: false, NoExpiry: true, MaxGetLen: 3}
+			opts := cmdGenOpts{Binary: binary, Keys: keys, TwoPorts: false, NoExpiry: true, MaxGetLen: 3, GetE: cfg.Shape == "l1only" && cfg.L1 != "chunked"}
 			for s := 0; s < steps; s++ {
 				c := genCmd(t, opts, now)
 				if cfg.L1 == "chunked" && len(c.Value) > 0 && rapid.IntRange(0, 3).Draw(t, "multiChunk") == 0 {
